@@ -60,6 +60,9 @@ func runHistory(run *vrun.Run, top string, w HistWitness) {
 			return
 		}
 	}
+	for _, d := range dirs {
+		os.Chtimes(d, tickTime(0), tickTime(0))
+	}
 	model := newTreeModel(w.Roots)
 	var prev fs.VerifIndex
 	var prevM MIndex
